@@ -1,0 +1,18 @@
+//go:build verif
+
+// Round 6, area K: util.TypeOfAddr - which network a listen address names. Comment-only file.
+
+package util
+
+// net.SplitHostPort is a pure function of its argument (uninterpreted: r6KHostPort(addr) = "addr has the form host:port").
+//@ fn r6KHostPort(addr string) bool
+//@ extern[in github.com/nsqio/nsq/internal/util] net.SplitHostPort(hostport) (host, port, err)
+//@   ensures[pure] (err == nil) == r6KHostPort(hostport)
+//@   modifies
+// TypeOfAddr: "tcp" exactly for a host:port address, "unix" (a socket path) for everything else; never anything else.
+//@ func TypeOfAddr(addr string) string
+//@   props C15 C10
+//@   ensures[tcp-iff-host-port] (result == "tcp") == r6KHostPort(addr)
+//@   ensures[otherwise-unix] (result == "unix") == !r6KHostPort(addr)
+//@   modifies
+//@   nochan
